@@ -2,6 +2,7 @@ package props
 
 import (
 	"fmt"
+	"io"
 	"reflect"
 	"strings"
 	"testing"
@@ -182,8 +183,8 @@ func checkHist(c *HistCase) *Outcome {
 		srcs[i] = r.Src
 	}
 	// ---- the objects that are deliberately reused
-	engines := []*yae.Expr{yae.NewExpr(), yae.NewExpr().UseClosureCompiler(), yae.NewExpr()}
-	engineName := []string{"vm#0", "closure#1", "vm#2"}
+	engines := []*yae.Expr{yae.NewExpr(), yae.NewExpr().UseClosureCompiler(), yae.NewExpr().EnableDebug(io.Discard)}
+	engineName := []string{"vm#0", "closure#1", "vm#2(stage log enabled, discarded)"}
 	// nest :: forall a. a -> a, a host function that gives the harness control in the middle of an evaluation
 	var nestHook func()
 	for _, e := range engines {
